@@ -1,18 +1,30 @@
 #!/usr/bin/env python3
-"""seed_batch.py [seed_id ...] : runs lib/seedtest.sh for the given seeds (default: every seed without a
+"""seed_batch.py [--shard=i/n] [seed_id ...] : (SEEDRUN_DIR selects the scratch slot) runs lib/seedtest.sh for the given seeds (default: every seed without a
 detection result) against the check of the property each breaks, and records the outcome in meta.json"""
 import json, os, subprocess, sys, glob
 V = os.path.join(os.path.dirname(os.path.abspath(__file__)), "..")
-ids = sys.argv[1:] or [os.path.basename(d.rstrip("/")) for d in sorted(glob.glob(os.path.join(V, "seeded", "*/")))]
+S = os.environ.get("SEEDRUN_DIR", "/tmp/seedrun")
+shard = None
+argv = [a for a in sys.argv[1:] if not a.startswith("--shard=")]
+for a in sys.argv[1:]:
+    if a.startswith("--shard="):
+        shard = tuple(int(x) for x in a[8:].split("/"))
+ids = argv or [os.path.basename(d.rstrip("/")) for d in sorted(glob.glob(os.path.join(V, "seeded", "*/")))]
+todo = []
 for sid in ids:
+    m = json.load(open(os.path.join(V, "seeded", sid, "meta.json")))
+    if m.get("detected_by") and not argv:
+        continue
+    todo.append(sid)
+if shard:
+    todo = [s for i, s in enumerate(todo) if i % shard[1] == shard[0]]
+for sid in todo:
     mp = os.path.join(V, "seeded", sid, "meta.json")
     m = json.load(open(mp))
-    if m.get("detected_by") and not sys.argv[1:]:
-        continue
     prop = m["breaks_property"]
     checks = m.get("run_checks") or [prop]
     subprocess.run([os.path.join(V, "lib", "seedtest.sh"), sid] + checks)
-    res = [json.loads(l) for l in open("/tmp/seedrun/results.jsonl") if '"seed":"%s"' % sid in l]
+    res = [json.loads(l) for l in open(os.path.join(S, "results.jsonl")) if '"seed":"%s"' % sid in l]
     det, missed = [], []
     for c in checks:
         r = [x for x in res if x.get("check") == c]
